@@ -31,7 +31,7 @@ type accessRec struct {
 }
 
 func (r *Run) runMain(entry *ssa.Function) {
-	main := &Thread{id: 0, vc: []int{0}}
+	main := &Thread{id: 0, vc: []int{0}, started: true, wake: make(chan struct{})}
 	r.threads = []*Thread{main}
 	r.cur = main
 	r.callFn(entry, nil, nil, nil)
@@ -130,6 +130,17 @@ func (r *Run) yield(why string) {
 }
 
 func (r *Run) chooseSched(n int) int {
+	if r.E.Cfg.Concrete != nil {
+		c := 0
+		if r.schedN < len(r.E.Cfg.ConcreteSched) {
+			c = r.E.Cfg.ConcreteSched[r.schedN]
+		}
+		r.schedN++
+		if c >= n {
+			c = 0
+		}
+		return c
+	}
 	i := len(r.taken)
 	if i < len(r.prefix) {
 		d := r.prefix[i]
